@@ -404,3 +404,62 @@ def _on_dimension(call):
     o = unwrap(call.c[0])
     t = (o.t or '')
     return 'Dimension' in t or 'Dimension' in ((call.callee or {}).get('cls') or '')
+
+
+def run_static_memo(prog, rep):
+    """function-static state that remembers the result of a computation is keyed by every argument of that computation"""
+    rule = rep.rule('R-MEMO', 'a function-static variable that remembers a computed result is refreshed whenever any argument of that computation differs from the remembered one', floor=1)
+    sem = Sem(prog)
+    nstat = nmemo = 0
+    for f in sorted(prog.funcs.values(), key=lambda f: (f.file, f.line)):
+        if f.body is None or not f.file or prog.rel(f.file).startswith('/') or '/test' in f.file:
+            continue
+        statics = {}
+        for r in f.walk():
+            if r.k == 'ref' and r.decl.get('kind') == 'staticlocal':
+                statics[r.decl.get('lid')] = r.decl.get('name')
+        if not statics:
+            continue
+        nstat += len(statics)
+        assigns = [a for a in f.walk() if (a.k == 'assign' or (a.k == 'call' and a.get('op') == '=')) and len(a.c) == 2 and unwrap(a.c[0]).k == 'ref' and unwrap(a.c[0]).decl.get('lid') in statics]
+        if not assigns:
+            continue
+        # which statics remember which expression
+        remembered = {}
+        for a in assigns:
+            remembered.setdefault(unwrap(a.c[0]).decl.get('lid'), []).append(a)
+        for a in assigns:
+            calls = [c for c in a.c[1].walk() if c.k == 'call' and (c.callee.get('q') or '').startswith('nix::') and not c.get('op') and real_args(c)]
+            if not calls:
+                continue
+            g = calls[0]
+            nmemo += 1
+            sname = statics[unwrap(a.c[0]).decl.get('lid')]
+            conds = [x.c[2] for x in a.ancestors() if x.k == 'if' and x.c[2] is not None]
+            compared = []
+            for cn in conds:
+                for b in cn.walk():
+                    if (b.k == 'binop' or b.k == 'call') and b.get('op') in ('!=', '==') and len(b.c) == 2:
+                        compared.append((term(unwrap(b.c[0])), term(unwrap(b.c[1]))))
+            missing = []
+            for arg in real_args(g):
+                ta = term(unwrap(arg))
+                if ta[0] == 'k':
+                    continue
+                keyed = False
+                for (l, r) in compared:
+                    other = r if l == ta else (l if r == ta else None)
+                    if other is not None and other[0] == 'v' and other[1] in statics:
+                        # that static must be refreshed with this argument
+                        if any(term(unwrap(x.c[1])) == ta for x in remembered.get(other[1], [])):
+                            keyed = True
+                if not keyed:
+                    missing.append(arg.src(30))
+            rule.check(not missing, '%s|%s' % (re.sub(r'<.*', '', f.q), sname), rep.where(a), f.label(), '%s = %s(...) is refreshed when any argument changes' % (sname, g.callee.get('name')),
+                       '%s remembers %s(%s) but is not refreshed when %s changes: a later call with the same %s and another %s gets the remembered result' % (
+                           sname, g.callee.get('name'), ', '.join(x.src(20) for x in real_args(g)), ' / '.join(missing),
+                           ', '.join(x.src(20) for x in real_args(g) if x.src(30) not in missing) or 'other arguments', ' / '.join(missing)))
+    rule.ok('static-locals|scan', 'src', 'all functions', '%d function-static variables seen, %d remember a computed result' % (nstat, nmemo), nontrivial=False)
+    if nstat < 3:
+        raise AnalysisBroken('R-MEMO: only %d function-static variables found (anchors: createId generator, unit regexes)' % nstat)
+    return rule
